@@ -3,7 +3,7 @@
 (content only, no syrupy) with the upstream snapshot files.  Usage: /venv/bin/python snapshot_anchor.py [--json]
 Exit 0 if all compared snapshots are byte-identical."""
 import json, os, sys, tempfile
-sys.path.insert(0, "/repo/src")
+sys.path.insert(0, os.path.join(os.environ.get("VSDS_REPO", "/repo"), "src"))
 os.chdir(tempfile.mkdtemp(prefix="vsds_anchor_"))
 from pathlib import Path
 from safeds_stubgen.api_analyzer import TypeSourcePreference, TypeSourceWarning, get_api
